@@ -247,6 +247,19 @@ Proof.
   - intros H. destruct (IH Hnd' H) as [Hs Ht]. simpl. split; [intros s; specialize (Hs s)|intros t; specialize (Ht t)]; lia.
 Qed.
 
+Lemma pfind_some seq p e : pfind seq p = Some e -> n_seq e = seq /\ In seq (pseqs p) /\ exists id, In (id, e) p.
+Proof.
+  induction p as [|[i x] p IH]; simpl; [discriminate|]. destruct (Z.eqb_spec (n_seq x) seq) as [Heq|Hne].
+  - intros H; inversion H; subst. split; [reflexivity|]. split; [left; reflexivity|]. exists i. left; reflexivity.
+  - intros H. destruct (IH H) as (H1 & H2 & id & H3). split; [assumption|]. split; [right; assumption|]. exists id. right; assumption.
+Qed.
+
+Lemma pfind_none seq p : pfind seq p = None -> ~ In seq (pseqs p).
+Proof.
+  induction p as [|[i x] p IH]; simpl; [auto|]. destruct (Z.eqb_spec (n_seq x) seq) as [Heq|Hne]; [discriminate|].
+  intros H [Hx|Hin]; [contradiction|]. exact (IH H Hin).
+Qed.
+
 Lemma mgr_step_pids o st : pids_ok st -> pids_ok (fst (mgr_step o st)).
 Proof.
   unfold pids_ok. intros Hp. destruct o; simpl; try assumption.
@@ -254,7 +267,8 @@ Proof.
     unfold mgr_add. destruct (mgr_add_inner seq rpt c tok draw st) as [st' r] eqn:E.
     assert (NoDup (map fst (m_probing st'))).
     { unfold mgr_add_inner in E. destruct (m_acid st); [inversion E; subst; assumption|].
-      destruct (_ || _); [inversion E; subst; assumption|].
+      destruct (pfind seq (m_probing st)); [destruct (_ && _); inversion E; subst; assumption|].
+      destruct (negb _ && _); [inversion E; subst; assumption|].
       set (st1 := retire_probing_stage rpt st) in E.
       assert (H1 : NoDup (map fst (m_probing st1))).
       { unfold st1, retire_probing_stage. destruct (rpt =? 0); [assumption|].
@@ -348,7 +362,13 @@ Lemma add_inner_phi seq rpt c tok d st st' r :
 Proof.
   unfold mgr_add_inner. destruct (m_acid st) eqn:Ha.
   { intros H; inversion H; subst. repeat split; try (intros [Hx|Hx]; discriminate Hx); intros; try pose proof (b2z_range (seq =? s)); lia. }
-  destruct (_ || _).
+  destruct (pfind seq (m_probing st)) as [e|] eqn:Epf.
+  { apply pfind_some in Epf as (_ & Hin & _).
+    assert (H1 : 1 <= phi st seq).
+    { unfold phi, held. simpl. rewrite cntz_app. apply cntz_in in Hin. pose proof (retc_nonneg seq (m_log st)).
+      pose proof (cntz_nonneg seq (qseqs (m_queue st))). pose proof (b2z_range (m_active st =? seq)). lia. }
+    destruct (_ && _); intros H; inversion H; subst; (split; [intros s; pose proof (b2z_range (seq =? s)); lia|split; [intros _; assumption|reflexivity]]). }
+  destruct (negb _ && _).
   { intros H; inversion H; subst; clear H. split; [|split].
     - intros s. unfold phi, held; simpl. pose proof (b2z_range (seq =? s)). lia.
     - intros _. unfold phi, held; simpl. rewrite Z.eqb_refl. cbn [b2z]. pose proof (retc_nonneg seq (m_log st)).
@@ -442,7 +462,7 @@ Proof.
     destruct (pdelete_cnt _ _ _ Hp El) as [Hs _]. specialize (Hs s).
     unfold phi, held; simpl. rewrite !cntz_app. lia.
   - cbn [fst]. lia.
-  - cbn [fst]. lia.
+  - cbn [fst]. unfold phi, held; simpl. lia.
 Qed.
 
 (* ------------------------------------------------------------------------- *)
